@@ -271,7 +271,7 @@ pub fn big_case_strategy(prop: u64) -> BoxedStrategy<Case> {
 
 pub fn serde_case_strategy() -> BoxedStrategy<Case> {
     let u = prop_oneof![2 => Just(3u64), 3 => Just(10u64), 2 => Just(60u64), 1 => Just(5000u64)];
-    (u, plan_strategy(), 0u64..2, 0u64..4, 0u64..12, 0u32..100, 0u64..40, 0u32..100, 0u64..100)
+    (u, plan_strategy(), 0u64..2, 0u64..4, 0u64..20, 0u32..100, 0u64..40, 0u32..100, 0u64..100)
         .prop_flat_map(move |(u, plan, coll, mode, hint, errp, pre, be, etp)| {
             let n = prop_oneof![4 => 0usize..12, 3 => 12usize..80, 1 => 80usize..400];
             (n, 0u64..65536).prop_flat_map(move |(n, errfrac)| {
